@@ -98,9 +98,11 @@ def random_cd(rng):
         pd["m"], pd["n"] = min(pd["m"], 3), min(pd["n"], 3)
         pd["Ncte"] = [rat(0)] * 3
     if kind in ("SSycte", "BFycte"):
-        pd2["a"] = pd1["a"]
-    elif kind in ("SSxcte", "BFxcte"):
-        pd2["b"] = pd1["b"]
+        if rng.random() < 0.5:
+            pd2["a"] = pd1["a"]            # else: panels of different length joined along y = const (the kernels take
+    elif kind in ("SSxcte", "BFxcte"):     # the interface measure from panel 1 for all three blocks)
+        if rng.random() < 0.5:
+            pd2["b"] = pd1["b"]
         pd2["y2"] = pd2["b"]
     else:
         pd2["a"], pd2["b"] = pd1["a"], pd1["b"]
